@@ -38,6 +38,7 @@
 #include <sys/stat.h>
 
 #include "upipe/ubase.h"
+#include "upipe/uref_block_flow.h"
 #include "upipe/uprobe.h"
 #include "upipe/uclock.h"
 #include "upipe/udict.h"
@@ -45,7 +46,6 @@
 #include "upipe/uref_attr.h"
 #include "upipe/uref_flow.h"
 #include "upipe/uref_block.h"
-#include "upipe/uref_block_flow.h"
 #include "upipe/uref_pic_flow.h"
 #include "upipe/uref_clock.h"
 #include "upipe/ubuf.h"
@@ -511,7 +511,16 @@ bool pd_option_d(struct upipe *upipe, const struct pipe_type *type, bool set,
     } else if (!strcmp(name, "flow_def")) {
         if (set) {
             struct uref *fd = NULL;
-            if (strcmp(value, "null")) { fd = uref_alloc_control(g_uref); uref_flow_set_def(fd, value); }
+            if (strcmp(value, "null")) {
+                /* <def>[@<size>]: the definition, optionally announcing a block size */
+                char def[96];
+                snprintf(def, sizeof(def), "%s", value);
+                char *at = strchr(def, '@');
+                if (at) *at = 0;
+                fd = uref_alloc_control(g_uref);
+                uref_flow_set_def(fd, def);
+                if (at) uref_block_flow_set_size(fd, strtoull(at + 1, NULL, 10));
+            }
             err = upipe_set_flow_def(upipe, fd);
             uref_free(fd);
         } else {
